@@ -969,7 +969,10 @@ func isinstance(obj py.Object, classOrTuple py.Object) (py.Bool, error) {
 	switch class_tuple := classOrTuple.(type) {
 	case py.Tuple:
 		for idx := range class_tuple {
-			res, _ := isinstance(obj, class_tuple[idx])
+			res, err := isinstance(obj, class_tuple[idx])
+			if err != nil {
+				return false, err
+			}
 			if res {
 				return res, nil
 			}
